@@ -96,10 +96,11 @@ Fixpoint sfields (fs : list (str * bool * bool * gv)) : list (str * gv) :=
   | (n, e, _, v) :: r => if e then (n, v) :: sfields r else sfields r
   end.
 
-(** an exported field that is non-zero for reflect.IsZero and for cmp.Equal *)
+(** an exported field that is non-zero for reflect.IsZero and for cmp.Equal
+    (an interface-typed slot is zero exactly when it holds nil) *)
 Definition nzw (f : str * bool * bool * gv) : bool :=
   let '(_, e, i, v) := f in
-  e && negb (gv_is_zero v) &&
+  e && negb (if (i : bool) then match v with VNil => true | _ => false end else gv_is_zero v) &&
   negb (if (i : bool) then match v with VNil => true | _ => false end else cmp_is_zero v).
 
 Definition seq_nil (v : gv) : bool := match v with VSlice _ n _ => n | _ => false end.
